@@ -120,7 +120,8 @@ def _operator_schmidt_rank(rho: np.ndarray, dim: int | list[int] | np.ndarray = 
         dim = np.array([dim, dim])
 
     op_1 = rho.reshape(int(np.prod(np.prod(dim))), 1)
-    swap_dim = np.concatenate((dim[1, :].astype(int), dim[0, :].astype(int)))
+    # rho is vectorised row by row: the index order is (row A, row B, column A, column B).
+    swap_dim = np.concatenate((dim[0, :].astype(int), dim[1, :].astype(int)))
     op_2 = swap(op_1, [2, 3], swap_dim).reshape(-1, 1)
 
     return schmidt_rank(op_2, np.prod(dim, axis=0).astype(int))
